@@ -20,6 +20,7 @@ func dispatchMore(cmd string, r *prng, count int, extra string) bool {
 		}
 	case "disc-step":
 		emit(runDiscWitness(99999))
+		emit(runDiscTwinWitness(99998))
 		for i := 0; i < count && discBadOps < 4; i++ {
 			emit(runDiscStep(newPRNG(r.next()), i))
 		}
